@@ -50,6 +50,9 @@ type authCase struct {
 	// text (shell section as below, file_transfer / icmp / udp sections set to
 	// different values)
 	ViaAgent bool `json:"via_agent,omitempty"`
+	// BadHash: the configured password_hash is this string, which is not a
+	// well-formed bcrypt hash: no password at all matches
+	BadHash string `json:"malformed_password_hash,omitempty"`
 }
 
 type stormCase struct {
@@ -222,7 +225,9 @@ func main() {
 		var sb strings.Builder
 		fmt.Fprintf(&sb, "agent:\n  data_dir: %s\n  log_level: error\n", yq(agentDir))
 		fmt.Fprintf(&sb, "shell:\n  enabled: %v\n  max_sessions: %d\n", a.Enabled, a.Max)
-		if a.HasHash {
+		if a.BadHash != "" {
+			fmt.Fprintf(&sb, "  password_hash: %s\n", yq(a.BadHash))
+		} else if a.HasHash {
 			fmt.Fprintf(&sb, "  password_hash: %s\n", yq(string(hash)))
 		}
 		sb.WriteString("  whitelist: [")
@@ -268,6 +273,9 @@ func main() {
 		if a.HasHash {
 			cfg.PasswordHash = string(hash)
 		}
+		if a.BadHash != "" {
+			cfg.PasswordHash = a.BadHash
+		}
 		return shell.NewExecutor(cfg)
 	}
 
@@ -275,6 +283,9 @@ func main() {
 	authorised := func(a authCase) (bool, string) {
 		if !a.Enabled {
 			return false, "shell disabled"
+		}
+		if a.BadHash != "" {
+			return false, "no password matches a malformed hash"
 		}
 		if a.HasHash && a.Password != rightPassword {
 			return false, "password does not match"
@@ -315,6 +326,9 @@ func main() {
 
 	runAuth := func(a authCase) {
 		a.Kind = "auth"
+		if a.BadHash != "" {
+			a.HasHash = true
+		}
 		e := mkExec(a)
 		for i := 0; i < a.Before; i++ {
 			e.AcquireSession() // fill; errors above the maximum are ignored on purpose
@@ -335,7 +349,7 @@ func main() {
 			return
 		}
 		a.Observed = fmt.Sprint(verr)
-		key := fmt.Sprintf("%v|%q|%v|%d|%d|%q|%q|%q|%v", a.Enabled, a.Whitelist, a.HasHash, a.Max, before, a.Command, a.Args, a.Password, a.ViaAgent)
+		key := fmt.Sprintf("%v|%q|%v|%d|%d|%q|%q|%q|%v|%s", a.Enabled, a.Whitelist, a.HasHash, a.Max, before, a.Command, a.Args, a.Password, a.ViaAgent, a.BadHash)
 		c.Case(key, a.Enabled && len(a.Whitelist) > 0, a)
 		c.Count(fmt.Sprintf("verdict:%d", code))
 		// monitors
@@ -367,7 +381,7 @@ func main() {
 			body.Ref(x)
 		}
 		body.Ref(a.Password)
-		body.Bool(a.Password == rightPassword)
+		body.Bool(a.Password == rightPassword && a.BadHash == "")
 		body.Int(before)
 		body.Int(code)
 		body.Int(arg)
@@ -916,6 +930,18 @@ func main() {
 				a.Max, a.Before, a.Args, a.ViaAgent = mx, before, []string{"-l", "a;b"}[:1+before%2], true
 				runAuth(a)
 			}
+		}
+		// 1c. password_hash configured but not a well-formed bcrypt hash: nobody gets in
+		hs := string(hash)
+		for i, bh := range []string{"plaintext " + rightPassword, rightPassword, hs[:len(hs)-1], hs[:20], hs[1:], "$9z" + hs[3:], "$2a$99" + hs[6:], "$2a$04$", "$", "{bcrypt}" + hs, " " + hs} {
+			for _, pw := range []string{rightPassword, "anything", bh, "x", ""} {
+				a := base
+				a.BadHash, a.Password, a.ViaAgent = bh, pw, i%2 == 0
+				runAuth(a)
+			}
+			a := base
+			a.BadHash, a.Password, a.Whitelist = bh, "anything", []string{"*"}
+			runAuth(a)
 		}
 		// 2. random requests
 		n := c.N(700, 20000)
